@@ -424,7 +424,7 @@ pub fn regwalk(s: &mut Session, cmd: &Value) -> Value {
     };
     let base = s.elf.base;
     let mut findings: Vec<Value> = vec![];
-    let (mut stops, mut compared, mut unavailable, mut skipped, mut upper_frame_compared, mut reg_located, mut scope_checked, mut bt_compared) = (0u64, 0u64, 0u64, 0u64, 0u64, 0u64, 0u64, 0u64);
+    let (mut stops, mut compared, mut unavailable, mut skipped, mut upper_frame_compared, mut reg_located, mut scope_checked, mut bt_compared, mut fi_compared) = (0u64, 0u64, 0u64, 0u64, 0u64, 0u64, 0u64, 0u64, 0u64);
     let mut skip_reasons: std::collections::BTreeMap<String, u64> = Default::default();
     let mut regs_seen: std::collections::BTreeSet<String> = Default::default();
     let mut samples: Vec<Value> = vec![];
@@ -491,6 +491,27 @@ pub fn regwalk(s: &mut Session, cmd: &Value) -> Value {
                 break;
             }
             let d = s.dbg.as_ref().unwrap();
+            // `frame info` of the selected frame: number, canonical frame address, return address
+            match d.frame_info() {
+                Ok(fi) => {
+                    fi_compared += 1;
+                    let want_ra = frames.get(k + 1).map(|f| f.lookup_pc + 1);
+                    if fi.num as usize != k {
+                        findings.push(json!({"sig": "C05:optimized:frame-info:wrong-frame-number", "detail": format!("step {step}: frame {k} ({fname}) selected, frame info reports number {}", fi.num)}));
+                    }
+                    if let Some(cfa) = fr.cfa {
+                        if fi.cfa.as_u64() != cfa {
+                            findings.push(json!({"sig": format!("C05:optimized:frame-info:cfa-differs:{}", if k == 0 { "innermost" } else { "caller" }), "detail": format!("step {step}: frame {k} ({fname}) lookup pc {:#x}: frame info reports the CFA {:#x}, the CFI row applied to this frame's registers gives {cfa:#x}", fr.lookup_pc.wrapping_sub(base), fi.cfa.as_u64())}));
+                        }
+                    }
+                    if let (Some(w), Some(g)) = (want_ra, fi.return_addr) {
+                        if g.as_u64() != w {
+                            findings.push(json!({"sig": "C05:optimized:frame-info:return-address-differs", "detail": format!("step {step}: frame {k} ({fname}): frame info reports the return address {:#x}, the frame above is at {w:#x}", g.as_u64())}));
+                        }
+                    }
+                }
+                Err(e) => findings.push(json!({"sig": "C05:optimized:frame-info:failed", "detail": format!("step {step}: frame {k} ({fname}): {e}")})),
+            }
             use bugstalker::debugger::variable::dqe::{Dqe, Selector};
             let locals = d.read_local_variables().map(|v| v.into_iter().map(|q| (q.identity().name.clone().unwrap_or_default(), crate::valw::vjson(q.value()))).collect::<Vec<_>>());
             let args = d.read_argument(Dqe::Variable(Selector::Any)).map(|v| v.into_iter().map(|q| (q.identity().name.clone().unwrap_or_default(), crate::valw::vjson(q.value()))).collect::<Vec<_>>());
@@ -566,7 +587,7 @@ pub fn regwalk(s: &mut Session, cmd: &Value) -> Value {
         }
     }
     findings.truncate(40);
-    json!({"ok": true, "stops": stops, "compared": compared, "compared_in_caller_frames": upper_frame_compared, "register_located": reg_located, "unavailable": unavailable, "scope_checked": scope_checked, "backtrace_frames_compared": bt_compared, "skipped": skipped, "skip_reasons": skip_reasons, "locations_seen": regs_seen, "functions": fns_seen, "findings": findings, "samples": samples, "ended": ended})
+    json!({"ok": true, "stops": stops, "compared": compared, "compared_in_caller_frames": upper_frame_compared, "register_located": reg_located, "unavailable": unavailable, "scope_checked": scope_checked, "backtrace_frames_compared": bt_compared, "frame_infos_compared": fi_compared, "skipped": skipped, "skip_reasons": skip_reasons, "locations_seen": regs_seen, "functions": fns_seen, "findings": findings, "samples": samples, "ended": ended})
 }
 
 // ------------------------------------------------------------------------------------------------
